@@ -77,3 +77,41 @@ Example h_ex_compare :
   cmp0 cfg_ex CLt (OpRef (mkref0 1 0)) (OpRef (mkref0 3 0)) s = Ok true s /\
   cmp0 cfg_ex CGe (OpRef (mkref0 3 0)) (OpVal 31) s = Ok false s.
 Proof. vm_compute. repeat split; reflexivity. Qed.
+
+(* ---- C10: unequal stateful allocators, every propagation trait set, select_on_container_copy_construction returning a child
+   allocator: a (allocator 1), b (allocator 2); c = copy of a gets allocator 1001; a = b re-houses a under allocator 2;
+   b = std::move(c) re-houses b under 1001; a.swap(b) exchanges allocator and block; std::swap(a, c) is three moves;
+   allocator-extended copy under 7.  No step is illegal: every block is released through the allocator that produced it. ---- *)
+Definition cfg_c10 : config := mkcfg 0 false false false true true true false SoccChild.
+Definition h_c10 : list lop0 :=
+  [ ZCtorElem 0 1 5; ZCtorElem 1 2 7; ZCtorCopy 2 0; ZAssignCopy 0 1; ZAssignMove 1 2; ZSwapMember 0 1; ZSwap 0 2;
+    ZCtorCopyAlloc 3 1 7; ZDestroy 2 ].
+
+Example h_c10_in_domain : hist_dom0 cfg_c10 h_c10 (st0 None).
+Proof.
+  unfold h_c10.
+  dom_step. { free_ex. }
+  dom_step. { free_ex. }
+  dom_step. { split; [free_ex|eexists; live_ex]. }
+  dom_step. { split; eexists; live_ex. }
+  dom_step. { split; eexists; live_ex. }
+  dom_step. { split; [discriminate|split; eexists; live_ex]. }
+  dom_step. { split; [discriminate|split; eexists; live_ex]. }
+  dom_step. { split; [free_ex|eexists; live_ex]. }
+  dom_step. { eexists. split; [unfold NP; cbn; lia|reflexivity]. }
+  dom_step.
+Qed.
+
+Example h_c10_allocators :
+  let s := snd (run_rank0 cfg_c10 h_c10 (st0 None)) in
+  fst (run_rank0 cfg_c10 h_c10 (st0 None)) = repeat OutOk 9 /\
+  map (fun r => option_map a_alloc (nth r (s_arrs s) None)) [0; 1; 2; 3]%nat = [Some 1001; Some 2; None; Some 7].
+Proof. vm_compute. split; reflexivity. Qed.
+
+(* the same history with no trait set (and equal or unequal allocators): no allocator ever changes *)
+Definition cfg_c10n : config := mkcfg 0 false false false false false false false SoccSame.
+Example h_c10n_allocators :
+  let s := snd (run_rank0 cfg_c10n h_c10 (st0 None)) in
+  fst (run_rank0 cfg_c10n h_c10 (st0 None)) = repeat OutOk 9 /\
+  map (fun r => option_map a_alloc (nth r (s_arrs s) None)) [0; 1; 2; 3]%nat = [Some 1; Some 2; None; Some 7].
+Proof. vm_compute. split; reflexivity. Qed.
